@@ -13,7 +13,7 @@ RULE = ("requests: word generators on unit states (each of the 256 single-bit Xo
         "extra: split/clone twins - what the split-off generator draws first equals what a never-split twin with the same history draws (word draws and byte fills, every ChaCha buffer offset). "
         "non-trivial = history contains a jump or split; distinct = distinct request line")
 TRUSTED = ["kernel evaluation (decide +kernel) of the GF(2) certificates: x^(2^128) mod P = JUMP, P(T)=0 on the 256 unit states, x^(2^256-1)=1 and one inverse certificate per prime factor; Pratt certificates via Mathlib lucas_primality"]
-ASSUMPTIONS = ["that after a ChaCha jump nothing of the old stream is served (buffer invalidated) is C03's keystream-attribution oracle; here the stream id arithmetic and the outputs are checked against the model"]
+ASSUMPTIONS = ["that after a ChaCha jump nothing of the old stream is served (buffer invalidated) is decided by the keystream-attribution oracle shared with C03 (extra: jump / split at unaligned read offsets)"]
 
 
 def disagreement_is_failing(req, impl, model):
@@ -135,3 +135,15 @@ def extra(binary, build, tier, rng):
             yield {"kind": "oracle", "build": build, "request": qa, "requests": [qa, qb], "impl": res[2 * k][:300], "model": res[2 * k + 1][:300],
                    "oracle": "the generator returned by split (clone) is not the generator as it was: its first draw is %s, a twin of the original with the same history draws %s" % (av[:40], bv[:40])}
     yield {"kind": "count", "what": "split-vs-twin-runs", "n": len(cases), "distinct": len(cases)}
+    # after a jump / split the parent must serve the NEW stream from its start and nothing of the old one - also when the jump happens at a read
+    # offset that is not word-aligned (1..3 bytes of the old block left): every output is attributed to the keystream of the stream it must come from
+    from .ks_oracle import run_oracle
+    reqs = []
+    for k in range(40 if tier == "quick" else 1200):
+        kk, c, st, N = G.key(rng), G.counter(rng), G.stream(rng), G.rounds(rng)
+        ops = [rng.choice(["u32", "u64", "fill:%d" % rng.choice([1, 2, 3, 5, 7, 61, 250, 253, 254, 255, 257])]) for _ in range(1 + rng.below(3))]
+        for _ in range(1 + rng.below(3)):
+            ops += [rng.choice(["jump", "split", "jump", "splitf:%d" % rng.choice([1, 3, 8])]), rng.choice(["fill:%d" % rng.choice([1, 3, 4, 9, 220]), "u32", "u64", "fill:2"]), rng.choice(["u32", "fill:%d" % rng.choice([1, 2, 3, 6, 53])])]
+        reqs.append("chacha n=%d key=%s ctr=%d str=%d ops=%s" % (N, ",".join(map(str, kk)), c, st, ",".join(ops)))
+    rc, impls, err = C.run_lines(binary, ["run"], reqs)
+    yield from run_oracle(binary, reqs, impls)
